@@ -659,9 +659,13 @@ Proof.
     rewrite Forall_forall in HF. apply HF. exact Hx. }
   assert (Hwok : forallb2 (fun (d : str * dtype) w => width_ok o (fst d) w) desc ws = true).
   { unfold ws, table_widths. apply forallb2_map2_r; [apply col_states_length|]. intros. apply width_ok_col_width. }
-  pose proof (header_slots_ok quant numfmt o desc rows) as HH. cbv zeta in HH.
+  pose proof (header_slots_ok quant numfmt o desc rows) as HH. cbv zeta in HH. change (table_widths quant numfmt o desc rows) with ws in HH.
   pose proof (header_slots_check desc ws len_ws) as HHC.
-  unfold L, text_lines. destruct (o_boxed o) eqn:B.
+  unfold L, text_lines.
+  change (table_widths quant numfmt o desc rows) with ws.
+  change (col_states quant o desc rows) with sts.
+  change (map (fun d : str * dtype => align_of (snd d)) desc) with aligns.
+  destruct (o_boxed o) eqn:B.
   - cbn [app nth Nat.add]. rewrite HW, len_ws, Nat.eqb_refl, str_eqb_refl, str_eqb_refl.
     rewrite app_comm_cons. rewrite !app_comm_cons. rewrite last_app_single, str_eqb_refl. cbn [andb orb negb].
     rewrite Hwok. cbn [negb]. rewrite HH, HHC. cbn [negb].
